@@ -81,7 +81,7 @@ impl SampleIndex {
                 if value > threshold {
                     break;
                 }
-                assert!(prev < value, "SampleIndex::new(): The values must be strictly increasing");
+                assert!(prev <= value, "SampleIndex::new(): The values must be non-decreasing");
                 offset += 1;
                 prev = value;
                 next = iter.next();
